@@ -44,6 +44,8 @@ def render_page(page):
         parts = ['<html><head>']
         if page.get('meta_robots') is not None:
             parts.append('<meta name="robots" content="%s">' % page['meta_robots'])
+        if page.get('base') is not None:
+            parts.append('<base href="%s">' % page['base'])
         for c in page.get('css', []):
             parts.append('<link rel="stylesheet" href="%s">' % c)
         parts.append('</head><body>')
